@@ -527,6 +527,9 @@ def keep_col(a, obs):
     return Col(p_keep(a.dtype), from_arr(a), obs, keep=a.dtype)
 
 
+_COMPANIONS = {}
+
+
 def mk_case(ctx, kind, op, desc, cols, sources, tags=None, nontrivial=True):
     '''cols: list of Col or an exception (the operation raised: nothing is stored, nothing to compare).'''
     t = {'op': op}
@@ -548,7 +551,19 @@ def mk_case(ctx, kind, op, desc, cols, sources, tags=None, nontrivial=True):
     d = dict(desc, op=op, observed=[{'dtype': str(c.obs.dtype), 'values': rp(c.obs.tolist() if c.obs.dtype.kind not in 'Mm' else [str(x) for x in c.obs])}
                                     for c in cols if c.obs is not None])
     ctx.count(kind)
-    return Case(kind, d, m=m, s=s, tags=t, nontrivial=nontrivial)
+    case = Case(kind, d, m=m, s=s, tags=t, nontrivial=nontrivial)
+    if 'finding' in t and 'outcome' not in t:
+        # OUTCOME discriminator: the finding tag may excuse only the recorded kind of outcome.  The implementation model M transcribes every
+        # recorded defect (result dtype + exactly which cells are lost + every other cell unchanged), so a companion case WITHOUT the
+        # finding tag demands, as its specification, that the observation equals M: another dtype, a wrong value in a cell the defect
+        # does not touch, a wrong shape fail the companion and are reported, whatever the tag says.
+        t2 = {k: v for k, v in t.items() if k != 'finding'}
+        t2['outcome_of'] = t['finding']
+        companion = Case(kind + ':outcome', dict(d, companion='the observed result must be exactly the recorded outcome (model M) of ' + t['finding']),
+                         m=None, s=m, tags=t2, nontrivial=False)
+        companion.key = case.key + ':outcome'
+        _COMPANIONS[id(case)] = companion
+    return case
 
 
 # ------------------------------------------------------------------------------------------- Series / Index: element meets column
@@ -643,10 +658,20 @@ def op_idx_fillna(a, fv):
     return [Col(p_fill(a.dtype, fv, True), _fillna_cells(a, fv, lambda i: na[i]), r.values)]
 
 
-def _indexgo_years_tag(a, xs):
-    '''finding C07-indexgo-timedelta-years: timedelta64[Y] labels (kept as Python ints by IndexGO) grow by a timedelta64[M] label.'''
+def _indexgo_years_tag(a, xs, observed):
+    '''finding C07-indexgo-timedelta-years: timedelta64[Y] labels (kept as Python ints by IndexGO) grow by a timedelta64[M] label.
+    The tag is set only when the OBSERVED result is the recorded wrong result: dtype timedelta64[M], the year counts re-read as months,
+    the appended labels unchanged.'''
     if a.dtype == np.dtype('m8[Y]') and any(isinstance(x, np.timedelta64) and np.datetime_data(x.dtype)[0] == 'M' for x in xs):
-        return {'finding': 'C07-indexgo-timedelta-years'}
+        n = len(observed) - len(xs)
+        try:
+            wrong = np.concatenate([a[:n].astype('int64').astype('m8[M]'), np.array([np.timedelta64(x, 'M') for x in xs], dtype='m8[M]')])
+            same = observed.dtype == np.dtype('m8[M]') and len(observed) == len(wrong) and all(
+                (np.isnat(o) and np.isnat(w)) or o == w for o, w in zip(observed, wrong))
+        except Exception:  # noqa
+            same = False
+        if same:
+            return {'finding': 'C07-indexgo-timedelta-years', 'outcome': 'years-reread-as-months'}
     return {}
 
 
@@ -654,7 +679,7 @@ def op_idxgo_append(a, fv):
     sf = _sf()
     g = sf.IndexGO(a[:2])
     g.append(fv)
-    return [Col(p_fill(a.dtype, fv, True), from_arr(a, [0, 1]) + from_elem(fv), g.values)], _indexgo_years_tag(a, [fv])
+    return [Col(p_fill(a.dtype, fv, True), from_arr(a, [0, 1]) + from_elem(fv), g.values)], _indexgo_years_tag(a, [fv], g.values)
 
 
 SERIES_ELEM_OPS = [op_s_reindex, op_s_shift, op_s_shift_neg, op_s_assign_iloc, op_s_assign_loc_list, op_s_fillna, op_s_fillna_trailing,
@@ -785,7 +810,7 @@ def op_idxgo_extend(a, b):
     # extend appends one label at a time: resolve_dtype(dtype_from_element(label), running dtype)
     xs = cells_of(b[:2])
     cols = [Col(f'(PSteps {dt(a.dtype)} {lit.lst([elem(x) for x in xs])})', from_arr(a, [0, 1]) + [f'(FromElem {elem(x)})' for x in xs], g.values)]
-    return cols, _indexgo_years_tag(a, xs), [A(a[:2])] + [E(x) for x in xs]
+    return cols, _indexgo_years_tag(a, xs, g.values), [A(a[:2])] + [E(x) for x in xs]
 
 
 SERIES_ARR_OPS = [op_s_concat, op_s_concat3, op_s_insert_after, op_s_insert_before, op_s_assign_arr, op_s_assign_series,
@@ -1660,7 +1685,7 @@ def xop_ihgo_append(a, b):
     g2.extend(sf.IndexHierarchy.from_index_items((('q', sf.Index(b[:2])),)))
     v2 = g2.values_at_depth(1)
     # the grown level is rebuilt from its labels (IndexGO / iterable_to_array_1d): the label-list finding classes apply
-    tags = _indexgo_years_tag(a, [b[0]])
+    tags = _indexgo_years_tag(a, [b[0]], v)
     fnd = iter_finding(cells_of(a[:2]) + cells_of(b[:2]))
     if fnd and not tags:
         tags = {'finding': fnd}
@@ -2285,6 +2310,15 @@ def witness_cases(ctx):
 
 
 def cases(ctx):
+    for c in _cases(ctx):
+        yield c
+        comp = _COMPANIONS.pop(id(c), None)
+        if comp is not None:
+            ctx.count(comp.kind)
+            yield comp
+
+
+def _cases(ctx):
     oracle_sweep(ctx)
     yield from witness_cases(ctx)
     yield from kernel_cases(ctx)
